@@ -7,13 +7,18 @@
      - layout (c-wsp, c-nl, comment nodes and literal leaves such as parentheses) never reaches the result;
      - numbers of ANY length decode positionally in base 2/10/16, dotted series of any length, ranges, the five
        repeat forms, the char-val case flag, <rulename> vs prose.
-   NOT proved (stated as the gap in DESIGN.md): that for every derivation tree t of a text s the abstract syntax
-   ast_of t equals read_rulelist s (semantic unambiguity of the meta-grammar modulo layout).  That link is
-   covered by the three-way correspondence (implementation / spec reader / engine-on-translated-meta-grammar +
-   visitor model) on generated texts and on all bundled grammar texts. *)
+   The former gap is CLOSED (ReaderDeriv*.v): for every derivation tree t of a text s from the meta-grammar (the
+   association list computed from the TRANSLATED rule tables), the tree's abstract syntax IS what the spec reader reads
+   from s — so the meta-grammar is semantically unambiguous modulo layout and the library route (engine on the
+   meta-grammar, then the visitor) yields exactly Registry.load_grammar / Registry.create whenever it yields anything
+   (C04_library_route_is_spec_load, _create).  Still open (hence "partial" stays in the theorem names that predate it): that the
+   library accepts EVERY text the spec reader accepts (the converse inclusion; covered by the status comparison of the
+   three-way correspondence). *)
 From Coq Require Import String Ascii List NArith.
 Import ListNotations.
-From ABNF Require Import Base Engine AbnfRead Registry GenTypes Visit Visitor VisitorProps.
+From ABNF Require Import Base Engine Spec AbnfRead Registry GenTypes Visit Visitor VisitorProps Tables Compile
+     Bundled RegistryProps ReaderDeriv1 ReaderDeriv ReaderDerivE2E.
+Open Scope string_scope.
 
 Theorem C04_partial_visitor_is_compile : forall c n R a,
   ast_of n = Some a -> visit_e c n R = Some (compile c a R).
@@ -53,3 +58,53 @@ Theorem C04_partial_prose : forall c nm ch R t,
                         else (R, EProse)).
 Proof. exact prose_spec. Qed.
 Print Assumptions C04_partial_prose.
+
+(* ---- the gap of the first version, now closed ------------------------------------------------------------------ *)
+(* every derivation tree of a text has the abstract syntax the independent spec reader returns *)
+Theorem C04_reader_agrees_with_every_derivation : forall s t,
+  D (of_list l_meta) s (ERef (rid_meta "rulelist")) 0 [t] (length s) ->
+  exists rs, arules_of (children t) = Some rs /\ read_rulelist s = Some rs.
+Proof. exact reader_agrees_with_every_derivation. Qed.
+Print Assumptions C04_reader_agrees_with_every_derivation.
+
+Theorem C04_reader_agrees_rule : forall s t,
+  D (of_list l_meta) s (ERef (rid_meta "rule")) 0 [t] (length s) ->
+  exists a, arule_of t = Some a /\ read_rule s = Some (a, []).
+Proof. exact reader_agrees_rule. Qed.
+Print Assumptions C04_reader_agrees_rule.
+
+Theorem C04_visitor_on_any_derivation : forall c s t R,
+  D (of_list l_meta) s (ERef (rid_meta "rulelist")) 0 [t] (length s) ->
+  exists rs, read_rulelist s = Some rs /\ v_rulelist c t R = define_rules c rs R.
+Proof. exact visitor_on_any_derivation. Qed.
+Print Assumptions C04_visitor_on_any_derivation.
+
+(* the library's own route (its engine on its meta-grammar + its visitor), from any registry that still holds the boot
+   rules, is the specification *)
+Theorem C04_library_route_is_spec_load : forall fuel c text strict R R',
+  boot_ok R -> lib_load_grammar fuel c text strict R = LOk R' -> load_grammar c text strict R = Some R'.
+Proof. exact lib_load_grammar_is_spec. Qed.
+Print Assumptions C04_library_route_is_spec_load.
+
+Theorem C04_library_route_is_spec_create : forall fuel c text R R',
+  boot_ok R -> lib_create fuel c text R = LOk R' -> create c text R = Some R'.
+Proof. exact lib_create_is_spec. Qed.
+Print Assumptions C04_library_route_is_spec_create.
+
+(* the hypothesis is met by the boot registry and kept by definitions in any class other than the two library classes *)
+Theorem C04_boot_ok_initially : boot_ok (r_boot tt).
+Proof. exact boot_ok_boot. Qed.
+Print Assumptions C04_boot_ok_initially.
+
+Theorem C04_boot_ok_kept : forall c l R R', c <> 0%N -> c <> 1%N -> boot_reg R ->
+  define_rules c l R = Some R' -> no_core_clash R l -> boot_reg R' /\ boot_ok R'.
+Proof. intros c l R R' H0 H1 HB H Hn. pose proof (boot_reg_define_rules c l R R' H0 H1 HB H Hn) as HB'.
+  split; [exact HB'|exact (boot_reg_ok R' HB')]. Qed.
+Print Assumptions C04_boot_ok_kept.
+
+(* not vacuous: a text with comments, a continuation line, a white line and =/ *)
+Example C04_nonvacuous : exists t,
+  D (of_list l_meta) ex_text (ERef (rid_meta "rulelist")) 0 [t] (length ex_text) /\
+  arules_of (children t) = read_rulelist ex_text /\ read_rulelist ex_text <> None.
+Proof. destruct ex_nonvacuous as (t & H1 & H2 & H3). exists t. split; [exact H1|]. split; [exact H2|].
+  rewrite H3. discriminate. Qed.
